@@ -301,7 +301,8 @@ def main():
         with multiprocessing.Pool(a.jobs) as pool:
             res = pool.map(run_tests, muts, chunksize=1)
         byid = {r['id']: r for r in res}
-        survivors = [dict(m, **byid[m['id']]) for m in muts
+        survivors = [dict({k: v for k, v in m.items() if k != 'source'},
+                          **byid[m['id']]) for m in muts
                      if byid[m['id']]['tests_exit'] == 0]
         summary = {'mutants': len(muts), 'killed_by_tests': len(muts) - len(survivors),
                    'survivors': len(survivors)}
@@ -311,10 +312,19 @@ def main():
         shutil.rmtree(SCRATCH, ignore_errors=True)
         return
     data = json.load(open(a.inp))
-    survivors = data['survivors']
+    survivors = [m for m in data['survivors'] if m['file'] in files]
     if a.sample:
-        survivors = sorted(survivors, key=lambda m: hashlib.blake2b(
-            m['id'].encode(), digest_size=8).hexdigest())[:a.sample]
+        # at most --sample survivors per file, chosen by the hash of their id
+        by = {}
+        for m in sorted(survivors, key=lambda m: hashlib.blake2b(
+                m['id'].encode(), digest_size=8).hexdigest()):
+            if len(by.setdefault(m['file'], [])) < a.sample:
+                by[m['file']].append(m)
+        survivors = [m for f in files for m in by.get(f, [])]
+    sources = {m['id']: m['source']
+               for m in all_mutants(sorted({m['file'] for m in survivors}))}
+    for m in survivors:
+        m['source'] = sources[m['id']]
     results = []
     if a.out and os.path.exists(a.out):
         results = json.load(open(a.out))['results']
